@@ -177,7 +177,8 @@ Proof.
   destruct (find_checkpoint c (apply_batch s wq) (q - 1) (finalized c s) id) as [f|] eqn:E;
     [|cbn [writes_of_steps flat_map app all_prefixes]; auto].
   cbn [writes_of_steps flat_map app all_prefixes].
-  split; [exact I|]. split; [exact I1|]. split; [|exact Logic.I].
+  split; [exact I|]. split; [|exact Logic.I].
+  rewrite apply_batch_app.
   apply finalized_put_inv; auto. eapply find_checkpoint_stored; eauto.
 Qed.
 
